@@ -32,7 +32,7 @@ REQUIRED = {"capture.nothing_reaches_real_stream": {"quick": 1200, "thorough": 3
             "report.failing_step_has_exactly_its_scenarios_output": {"quick": 400, "thorough": 20000},
             "formatter.no_output_of_passing_scenarios": {"quick": 300, "thorough": 15000},
             "run.streams_restored_at_end": {"quick": 600, "thorough": 30000}}
-REQUIRED_SEEN = {"switches": ["out1err1log1", "out1err1log0", "out1err0log1", "out1err0log0", "out0err1log1", "out0err1log0",
+REQUIRED_SEEN = {"junit_forces_capture": ["with_some_switch_off"], "reported_step_status": ["failed", "error", "pending"], "switches": ["out1err1log1", "out1err1log0", "out1err0log1", "out1err0log0", "out0err1log1", "out0err1log0",
                               "out0err0log1", "out0err0log0"],
                  "log_habit": ["plain", "flush", "bulk", "peek", "tee_only"], "setup_logging_from_hook": ["DEBUG", "WARNING"],
                  "capture_switched_at_runtime": ["per scenario"],
@@ -121,6 +121,8 @@ def run_case(lab, mon, case, rng, sample=False):
     cap_out = "--no-capture" not in args
     cap_err = "--no-capture-stderr" not in args
     cap_log = "--no-logcapture" not in args
+    if "--junit" in args:
+        cap_out = cap_err = cap_log = True
     sw = "out%derr%dlog%d" % (cap_out, cap_err, cap_log)
     leaks = []
     nested = case.get("nested", {})
@@ -377,6 +379,20 @@ def run_case(lab, mon, case, rng, sample=False):
         twice = sorted(set(m for m in marks2 if marks2.count(m) > limit))
         bad2 = [m for m in marks2 if m[2] in passing and ((m[3] == "out" and cap_out) or (m[3] == "err" and cap_err) or (m[3] == "log" and cap_log))]
         mon.check("formatter.captured_output_shown_once", not twice and not bad2, lambda: W(formatter="progress2", repeated=twice[:5], of_passing=bad2[:5]))
+        # ... and it does print it: what the failure report of a step that failed, raised or is not implemented yet holds is in the
+        # formatter's problem block (steps that were not found have no report of their own)
+        text2 = fbuf2.getvalue()
+        if case.get("hook_fault") is None and not ki_hook:
+            for f in obs.features:
+                for s in f.walk_scenarios():
+                    for step in s.all_steps:
+                        if step.status.name in ("failed", "error", "pending") and step.error_message:
+                            need = set(MARK.findall(step.error_message))
+                            shown = set(marks2)
+                            mon.seen("reported_step_status", step.status.name)
+                            mon.check("formatter.step_progress_shows_the_failure_report", need <= shown and step.name.split(" ")[0] in text2,
+                                      lambda: W(formatter="progress2", scenario=s.name, step=step.name, status=step.status.name,
+                                                missing=sorted(need - shown)[:6]))
     if sample:
         mon.sample({"features": RB.case_texts(case), "args": args, "switches": sw, "markers_produced": len(printed),
                     "real_stdout_head": real_out[:200], "real_stderr_head": real_err[:200]})
@@ -486,6 +502,11 @@ def run(spec, mon):
         if rng.random() < 0.3:
             extra.append("--logging-filter=%s" % rng.choice(["bvm.c18", "-other", "bvm.c18,-other", "-other,bvm.c18", "-bvm side", "bvm side",
                                                              "bvm side,bvm.c18", "bvm.c18,-bvm side", "x.y,-bvm.c18"]))
+        if (i // 8) % 5 == 3:
+            # --junit: "all stdout and stderr will be redirected and dumped to the junit report, regardless of the
+            # '--capture' and '--no-capture' options" -- the three switches are on, whatever else the command line says
+            extra += ["--junit", "--junit-directory", "junit-reports-not-written"]
+            mon.seen("junit_forces_capture", "with_" + ("no_switch_off" if (a and b and c) else "some_switch_off"))
         case["args"] = case["args"] + extra
         # nested execute_steps for some passing steps
         nested = {}
